@@ -135,6 +135,107 @@ impl System for AlphaSys {
     }
 }
 
+// (a') alpha memory index with several indexed fields: a fact may lack some of them
+#[derive(Clone, Debug)]
+pub enum MOp {
+    Insert([u8; 3]), // per field f,g,h: 0 = absent, 1 = 5, 2 = NaN
+    CreateIndex(usize),
+    DropIndex(usize),
+}
+
+const MFIELDS: [&str; 3] = ["f", "g", "h"];
+
+#[derive(Clone)]
+pub struct AlphaMultiSys {
+    idx: AlphaMemoryIndex,
+    n: usize,
+}
+
+impl AlphaMultiSys {
+    pub fn new() -> Self {
+        AlphaMultiSys { idx: AlphaMemoryIndex::new(), n: 0 }
+    }
+}
+
+impl System for AlphaMultiSys {
+    type Op = MOp;
+    fn enabled(&self) -> Vec<MOp> {
+        let mut v = vec![];
+        for a in 0..3u8 {
+            for b in 0..3u8 {
+                for c in 0..3u8 {
+                    v.push(MOp::Insert([a, b, c]));
+                }
+            }
+        }
+        for i in 0..3 {
+            v.push(MOp::CreateIndex(i));
+            v.push(MOp::DropIndex(i));
+        }
+        v
+    }
+    fn step(&mut self, op: &MOp) -> Result<u64, Mismatch> {
+        match op {
+            MOp::Insert(p) => {
+                let mut f = TypedFacts::new();
+                f.set("id", self.n as i64);
+                for (i, k) in p.iter().enumerate() {
+                    match k {
+                        1 => f.set(MFIELDS[i], FactValue::Integer(5)),
+                        2 => f.set(MFIELDS[i], FactValue::Float(f64::NAN)),
+                        _ => {}
+                    }
+                }
+                self.n += 1;
+                self.idx.insert(f);
+            }
+            MOp::CreateIndex(i) => self.idx.create_index(MFIELDS[*i].to_string()),
+            MOp::DropIndex(i) => self.idx.drop_index(MFIELDS[*i]),
+        }
+        let mut obs = String::new();
+        for field in MFIELDS {
+            for v in [FactValue::Integer(5), FactValue::Float(f64::NAN), FactValue::Integer(0)] {
+                let ids = |r: Vec<&TypedFacts>| -> Vec<i64> {
+                    let mut x: Vec<i64> = r.iter().filter_map(|f| f.get("id").and_then(|i| i.as_integer())).collect();
+                    x.sort();
+                    x
+                };
+                let mut plain: Vec<i64> = self.idx.get_all().iter().filter(|f| f.get(field) == Some(&v)).filter_map(|f| f.get("id").and_then(|i| i.as_integer())).collect();
+                plain.sort();
+                let got = ids(self.idx.filter(field, &v));
+                let got_tracked = ids(self.idx.filter_tracked(field, &v));
+                if got != plain || got_tracked != plain {
+                    let mut indexed: Vec<String> = self.idx.indexed_fields().iter().map(|s| s.to_string()).collect();
+                    indexed.sort();
+                    return Err(Mismatch::tagged(
+                        "indexed_filter_differs_from_scan",
+                        format!("after {:?} (indexes on {:?}): filter({}, {:?}) = facts {:?} / tracked {:?}, linear `==` scan = {:?}", op, indexed, field, v, got, got_tracked, plain),
+                        &["several_indexed_fields"],
+                    ));
+                }
+                obs.push_str(&format!("{:?};", got));
+            }
+        }
+        Ok(hstr(&obs))
+    }
+    fn kind(op: &MOp) -> String {
+        match op {
+            MOp::Insert(_) => "insert",
+            MOp::CreateIndex(_) => "create_index",
+            MOp::DropIndex(_) => "drop_index",
+        }
+        .to_string()
+    }
+    fn model_state(&self) -> u64 {
+        let mut indexed: Vec<String> = self.idx.indexed_fields().iter().map(|s| s.to_string()).collect();
+        indexed.sort();
+        hstr(&format!("{:?}|{:?}", indexed, self.idx.get_all().iter().map(|f| format!("{:?}{:?}{:?}", f.get("f"), f.get("g"), f.get("h"))).collect::<Vec<_>>()))
+    }
+    fn try_clone(&self) -> Option<Self> {
+        Some(self.clone())
+    }
+}
+
 // ------------------------------------------------------------------------------------------------
 // (b) beta memory index
 
@@ -269,6 +370,39 @@ fn memo_facts() -> Vec<TypedFacts> {
         .collect()
 }
 
+/// fact sets that hold the same values under different fields (permutations, shifts, subsets)
+fn memo_facts_structure() -> Vec<TypedFacts> {
+    let mut out = vec![];
+    for a in 0..3u8 {
+        for b in 0..3u8 {
+            for c in 0..3u8 {
+                let mut f = TypedFacts::new();
+                for (name, k) in [("x", a), ("y", b), ("z", c)] {
+                    match k {
+                        1 => f.set(name, 1i64),
+                        2 => f.set(name, 5i64),
+                        _ => {}
+                    }
+                }
+                out.push(f);
+            }
+        }
+    }
+    out
+}
+
+fn memo_nodes_structure() -> Vec<ReteUlNode> {
+    vec![
+        alpha("x", "==", "5"),
+        alpha("y", "==", "5"),
+        alpha("z", "==", "5"),
+        alpha("x", ">", "4"),
+        ReteUlNode::UlAnd(Box::new(alpha("x", "==", "5")), Box::new(alpha("y", "==", "1"))),
+        ReteUlNode::UlAnd(Box::new(alpha("y", "==", "5")), Box::new(alpha("z", "==", "1"))),
+        ReteUlNode::UlNot(Box::new(alpha("x", "==", "5"))),
+    ]
+}
+
 pub struct MemoSys {
     m: MemoizedEvaluator,
     nodes: Vec<ReteUlNode>,
@@ -279,6 +413,9 @@ pub struct MemoSys {
 impl MemoSys {
     pub fn new() -> Self {
         MemoSys { m: MemoizedEvaluator::new(), nodes: memo_nodes(), facts: memo_facts(), seen: BTreeSet::new() }
+    }
+    pub fn new_structure() -> Self {
+        MemoSys { m: MemoizedEvaluator::new(), nodes: memo_nodes_structure(), facts: memo_facts_structure(), seen: BTreeSet::new() }
     }
 }
 
@@ -301,7 +438,7 @@ impl System for MemoSys {
         if memo != direct {
             return Err(Mismatch::new(
                 "memoised_evaluation_differs",
-                format!("node {:?} on facts x={:?}: memoised {} but direct evaluation {} (evaluated before: {:?})", self.nodes[n], self.facts[f].get("x"), memo, direct, self.seen),
+                format!("node {:?} on facts x={:?} y={:?} z={:?}: memoised {} but direct evaluation {} (evaluated before: {:?})", self.nodes[n], self.facts[f].get("x"), self.facts[f].get("y"), self.facts[f].get("z"), memo, direct, self.seen),
             ));
         }
         Ok(direct as u64)
@@ -451,6 +588,14 @@ pub fn run(opts: &Opts) -> Vec<Report> {
         r.bound = format!("same, values {{0, 5, -0.0, 0.0, 5.0, NaN}}, length <= {}", depth2);
         out.push(r);
     }
+    if crate::props::wants(opts, "alpha_index_several_fields") {
+        let depth = if quick { 4 } else { 5 };
+        let mut cfg = Config::new("alpha_index_several_fields", depth);
+        cfg.expected_letters = vec!["insert".into(), "create_index".into(), "drop_index".into()];
+        let mut r = explore::explore(&AlphaMultiSys::new, &cfg);
+        r.bound = format!("all histories of length <= {} over insert(each of f, g, h absent / 5 / NaN) / create_index(f|g|h) / drop_index(f|g|h); after every step filter and filter_tracked on every field for 5, NaN, 0 vs a linear == scan", depth);
+        out.push(r);
+    }
     if crate::props::wants(opts, "beta_index") {
         let depth = if quick { 7 } else { 9 };
         let mut cfg = Config::new("beta_index", depth);
@@ -464,6 +609,13 @@ pub fn run(opts: &Opts) -> Vec<Report> {
         let cfg = Config::new("memo", depth);
         let mut r = explore::explore(&MemoSys::new, &cfg);
         r.bound = format!("all sequences of <= {} evaluate(node, facts) calls over 7 nodes x 9 fact sets that print alike but differ in type", depth);
+        out.push(r);
+    }
+    if crate::props::wants(opts, "memo_field_structure") {
+        let depth = if quick { 2 } else { 3 };
+        let cfg = Config::new("memo_field_structure", depth);
+        let mut r = explore::explore(&MemoSys::new_structure, &cfg);
+        r.bound = format!("all sequences of <= {} evaluate(node, facts) calls over 7 nodes x 27 fact sets (each of x, y, z absent / 1 / 5: the same values under different fields)", depth);
         out.push(r);
     }
     if crate::props::wants(opts, "conclusion_index") {
@@ -483,6 +635,8 @@ pub fn replay(case: &serde_json::Value) -> crate::props::ReplayResult {
     let r = match case["sub"].as_str().unwrap_or("") {
         "alpha_index" => explore::replay(&|| AlphaSys::new(13), &ch),
         "alpha_index_zero_nan" => explore::replay(&|| AlphaSys::new(6), &ch),
+        "alpha_index_several_fields" => explore::replay(&AlphaMultiSys::new, &ch),
+        "memo_field_structure" => explore::replay(&MemoSys::new_structure, &ch),
         "beta_index" => explore::replay(&BetaSys::new, &ch),
         "memo" => explore::replay(&MemoSys::new, &ch),
         _ => explore::replay(&|| ConcSys::new(3), &ch),
